@@ -214,6 +214,15 @@ class _Timeout(Exception):
 
 
 def py_eval(src):
+    """('ok', value) | ('raise', class name) | ('timeout', None); a signal handler only runs between byte codes, so the
+    alarm of a long C-level operation can surface after eval() has returned - caught here as well"""
+    try:
+        return _py_eval(src)
+    except _Timeout:
+        return ('timeout', None)
+
+
+def _py_eval(src):
     import signal
     import warnings
     warnings.simplefilter('ignore')
@@ -224,6 +233,8 @@ def py_eval(src):
     signal.setitimer(signal.ITIMER_REAL, 2.0)
     try:
         return ('ok', eval(src, {'__builtins__': {'int': int, 'float': float, 'str': str}}))
+    except _Timeout:
+        return ('timeout', None)
     except Exception as e:
         return ('raise', type(e).__name__)
     finally:
@@ -283,6 +294,9 @@ def run(ctx: Ctx) -> None:
         ctx.count('impl:' + (r[0] if r[0] in ('ok',) else ('error:' + r[0].split(':')[0])))
         ctx.case(t, any(not o.startswith('lit') for o in ops))
         py = py_eval(t)
+        if py[0] == 'timeout':
+            ctx.count('python:timeout')       # (a very large intermediate value: not compared)
+            continue
         if len(ctx.samples) < 6 and len(ops) > 2:
             ctx.sample(dict(expression=t, tranp=repr(r[1]) if r[0] == 'ok' else r[0], python=repr(py[1])))
         # ---- property oracle -----------------------------------------------------------------
